@@ -51,6 +51,7 @@ def alphabet():
         ("rel", "D", "communication", None, (a1, a1)),
         ("rel", "D", "influence", None, (e2, e1)),
         ("rel", "D", "influence", None, (e3, e1)),
+        ("rel", "D", "influence", None, (e1, e1)),
         ("rel", "D", "membership", None, (e1, e2)),
         ("at", ("A", "k", S("ex")), "s_a"),
         # the identifier of the generation above, on another relation kind between the same two nodes
